@@ -1887,7 +1887,7 @@ func TestVerifC19(t *testing.T) {
 			c.params.Evidence.MaxAgeDuration = time.Duration(3+r.Intn(40)) * time.Second
 		}
 		if r.Chance(1, 6) {
-			c.params.Evidence.MaxBytes = 100 * 1048576 // large enough for the proposer's cap to admit evidence
+			c.params.Evidence.MaxBytes = 100 * 1048576 // large enough for the proposer's cap to let evidence in
 		}
 		if r.Chance(1, 12) {
 			c.params.Block.MaxBytes = int64(484*10) * int64(1+r.Intn(2)) // at most 1 or 2 pieces of evidence per block
